@@ -110,6 +110,8 @@ pub struct Prog {
     pub handler: Vec<(usize, usize)>,
     /// defs [start, end) are created inside a `scope` (signals and memos only)
     pub scope: Option<(usize, usize)>,
+    /// `memof` nodes (memos made by `ArcMemo::from(signal)`)
+    pub froms: Vec<usize>,
     pub tags: Vec<&'static str>,
 }
 
@@ -153,12 +155,19 @@ pub fn gen_prog_with(r: &mut Rng, mode: Mode, more_untracked: bool) -> Prog {
     let mut render: Vec<usize> = vec![];
     let mut other: Vec<(usize, &'static str)> = vec![];
     let mut handler: Vec<(usize, usize)> = vec![];
+    let mut froms: Vec<usize> = vec![];
     for k in 0..stages {
         let nmemo = match mode {
             Mode::C01 => r.range(1, 7),
             _ => r.range(0, 4),
         };
         for _ in 0..nmemo {
+            if r.chance(1, 8) {
+                // a memo made by conversion from a signal
+                let sigs: Vec<usize> = (0..defs.len()).filter(|i| matches!(defs[*i], Def::Sig(_))).collect();
+                defs.push(Def::Memo(Expr::Rd(true, *r.pick(&sigs))));
+                froms.push(defs.len() - 1);
+            }
             let readable: Vec<usize> =
                 (0..defs.len()).filter(|i| !matches!(defs[*i], Def::Eff(_)) && !coarse.iter().any(|c| c.0 == *i)).collect();
             // bias: read recent nodes (chains/diamonds) more than old ones
@@ -330,7 +339,11 @@ pub fn gen_prog_with(r: &mut Rng, mode: Mode, more_untracked: bool) -> Prog {
     if tags.is_empty() {
         tags.push("plain");
     }
-    Prog { defs, render, other, coarse, handler, scope: None, tags }
+    if !froms.is_empty() {
+        tags.retain(|t| *t != "plain");
+        tags.push("memof");
+    }
+    Prog { defs, render, other, coarse, handler, scope: None, froms, tags }
 }
 
 pub fn write_prog(f: &mut impl Write, p: &Prog) -> std::io::Result<()> {
@@ -350,6 +363,7 @@ pub fn write_prog(f: &mut impl Write, p: &Prog) -> std::io::Result<()> {
                 0 => writeln!(f, "memoh {}", show_expr(b))?,
                 k => writeln!(f, "memoc {k} {}", show_expr(b))?,
             },
+            Def::Memo(Expr::Rd(true, sg)) if p.froms.contains(&i) => writeln!(f, "memof {sg}")?,
             Def::Memo(b) => writeln!(f, "memo {}", show_expr(b))?,
             Def::Eff(b) if p.render.contains(&i) => writeln!(f, "reff {}", show_expr(b))?,
             Def::Eff(b) if p.other.iter().any(|o| o.0 == i) => {
@@ -776,7 +790,7 @@ pub fn gen(mode: Mode, seed: u64, n: usize, path: &str, _tier: &str) -> std::io:
         if r.chance(1, 4) {
             let a = r.below(p.defs.len());
             let mut b = a;
-            while b < p.defs.len() && matches!(p.defs[b], Def::Sig(_) | Def::Memo(_)) && b - a < 5 {
+            while b < p.defs.len() && matches!(p.defs[b], Def::Sig(_) | Def::Memo(_)) && !p.froms.contains(&b) && b - a < 5 {
                 b += 1;
             }
             if b > a {
